@@ -74,7 +74,7 @@ func minimise(atoms []*core.Atom, check func([]*core.Atom) (string, string)) ([]
 	}
 	clause := clauseOf(sig)
 	cur := atoms
-	for changed := true; changed && len(cur) > 1; {
+	for changed := true; changed && len(cur) > 0; {
 		changed = false
 		for i := range cur {
 			cand := append(append([]*core.Atom{}, cur[:i]...), cur[i+1:]...)
